@@ -15,6 +15,9 @@ ALPHABETS = {
     "ctrl": [b"new\nline", b"cr\rx", b"bell\x07", b"esc\x1b[0m", b"\x01\x02", b"del\x7f", b"nl\n", b"\nnl"],
     "glob": [b"*star", b"q?", b"[b]", b"{a,b}", b"a+b", b"dot.", b"^c$", b"a|b", b"@(x)"],
     "uni": ["zażółć".encode(), "日本語".encode(), "emoji\U0001F600".encode(), "é".encode(), " nbsp".encode(), " ls".encode(), "�rep".encode()],
+    # valid UTF-8 that stays raw in a report but that trimming / control-character logic may eat
+    "edge": [b"nel\xc2\x85", b"\xc2\x85lead", b"trail\xc2\xa0", b"ls\xe2\x80\xa8", b"ps\xe2\x80\xa9", b"ideo\xe3\x80\x80",
+             b"bom\xef\xbb\xbf", b"zw\xe2\x80\x8b", b"c1\xc2\x9f", b"\xc2\x80c1", b"vt\x0b", b"ff\x0c", b"#hash", b"# Report", b"0123abcd, 5 B (5 B) * 2:"],
     "bad": [b"\xff\xfe", b"a\xc3", b"\x80x", b"ok\xed\xa0\x80", b"\xf0\x9f", b"\xc0\xaf"],
 }
 
@@ -22,7 +25,7 @@ ALPHABETS = {
 def pick_alphabets(rng, hostile=True):
     fams = ["plain"]
     if hostile:
-        for k in ("space", "quote", "ctrl", "glob", "uni", "bad"):
+        for k in ("space", "quote", "ctrl", "glob", "uni", "edge", "bad"):
             if rng.random() < 0.35:
                 fams.append(k)
     return fams
@@ -200,12 +203,27 @@ def gen_world(rng, cfg, *, nroots=1, hostile=True, links=True, max_files=24, fam
     if hostile:
         # confusable siblings: a name that differs from another one only by surrounding whitespace
         # (unique content), so that a trimmed or mangled path names a *different existing* file
-        ws = b" \t\n\r"
+        import unicodedata
         extra = []
+
+        def stripped(nm):
+            try:
+                u = nm.decode("utf-8")
+            except UnicodeDecodeError:
+                return nm.strip(b" \t\n\r\x0b\x0c")
+            def junk(ch):
+                return ch.isspace() or unicodedata.category(ch) in ("Cc", "Cf", "Zs", "Zl", "Zp")
+            a, b_ = 0, len(u)
+            while a < b_ and junk(u[a]):
+                a += 1
+            while b_ > a and junk(u[b_ - 1]):
+                b_ -= 1
+            return u[a:b_].encode("utf-8")
+
         for p in list(regular):
             pb = s2b(p)
             d, nm = os.path.split(pb)
-            st = nm.strip(ws)
+            st = stripped(nm)
             if st and st != nm and rng.random() < 0.7:
                 q = d + b"/" + st
                 if q not in names.used and b2s(q) not in regular:
